@@ -117,7 +117,14 @@ func (s *Service) handleSubmitSyncCommitteeContributionsError(ctx context.Contex
 		if err := json.Unmarshal([]byte(errorStr[jsonIndex:]), &resp); err != nil {
 			return err
 		}
+		if len(resp.Failures) == 0 {
+			// An error without a list of failures is not a list of tolerated failures.
+			return err
+		}
 		for i := range len(resp.Failures) {
+			if resp.Failures[i] == nil {
+				continue
+			}
 			switch {
 			case strings.HasPrefix(resp.Failures[i].Message, "Verification: AggregatorAlreadyKnown"):
 				s.log.Trace().Str("beacon_node_address", address).Int("index", resp.Failures[i].Index).Msg("Contribution and proof already received for that slot; ignoring")
